@@ -181,7 +181,7 @@ func run(prop string, plan Plan, tier string) int {
 		shards := st.shards(tier)
 		checks := st.checks(tier)
 		per := checks
-		if shards > 1 && checks > 0 {
+		if shards > 1 && checks > 0 && !st.FullChecks {
 			per = (checks + shards - 1) / shards
 		}
 		var wg sync.WaitGroup
